@@ -491,6 +491,8 @@ func execReq(req *proto.Req, resp *proto.Resp) {
 		}
 	case "store":
 		execStore(req.Store, resp)
+	case "probe":
+		execProbe(req, resp)
 	default:
 		resp.Status = -1
 		resp.Err = "unknown request kind " + req.Kind
